@@ -9,22 +9,17 @@ notation, any legal number spelling, any non-ASCII member-name shorthand."
 
 `C03_statement` is the property at full strength, in terms of the independent
 recogniser `Spec.Grammar` (the ABNF, rule for rule) and the validity rules
-`Spec.Valid`.  Proved here: `C03_structural`, the statement for every query
-without filter selectors — the whole segment/selector language: child and
-descendant segments, shorthand (incl. non-ASCII) and bracket notation, both quote
-styles with every escape form, index, slice (every combination of omitted parts)
-and wildcard selectors, blank space wherever the grammar allows it — for every
-environment (any integer range).  For filter selectors the proved part is the
-canonical spelling (`C12_filter_partial`: compile (print q) = q for every valid
-AST); arbitrary spellings of filters are decided by the oracle search on the real
-code (grammar-directed generation, judged by `Spec.judge`).
+`Spec.Valid`; `C03` proves it for every environment and every string (a joint
+simulation of lexer and Pratt parser along the derivation, `Proofs/Cf/*`).
+`C03_structural` is the filter-free special case (proved first, `Proofs/Cs/*`),
+`C01_end_to_end` composes it with evaluation.
 -/
 import JPV.Spec.Valid
 import JPV.Props.C05
 import JPV.Props.C13
 import JPV.Proofs.CompleteStructural
 import JPV.Proofs.Cf.CompleteKw
-import JPV.Proofs.Cf.Refute
+import JPV.Proofs.CompleteFull
 namespace JPV.Props
 open JPV
 
@@ -35,11 +30,14 @@ def C03_statement : Prop :=
     Spec.judge (sigsOfEnv env) env.minIdx env.maxIdx s = (.valid, some c) →
     Impl.compile env s = .ok (Spec.abstractSegs c)
 
-/-- proved: the WHOLE language, filters included — blanks wherever the grammar allows them, redundant
-parentheses, `!`, both quote styles, every number spelling, nested filters, function calls with the
-well-typedness checks — for every environment none of whose registered function names begins with a keyword
-literal (`true`, `false`, `null`): `C03_statement` restricted to such environments.  (The restriction
-cannot be dropped on the code as it stood when this was proved: `C03_statement_refuted_D33`.) -/
+/-- PROVED, at full strength: the WHOLE language, filters included — blanks wherever the grammar allows them,
+redundant parentheses, `!`, both quote styles, every number spelling, nested filters, function calls with the
+well-typedness checks — for EVERY environment (any function registry, any integer range): what the RFC
+recogniser derives and the validity rules accept, compile() accepts, and it builds the derivation's query.
+(Before the repair of D33 — keyword literals lexed as prefixes of function names such as `truex(` — this
+held only for registries without such names, `C03_kwfree`, and was refuted in general.) -/
+theorem C03 : C03_statement := fun env s c hj => Proofs.compile_complete env s c hj
+
 theorem C03_kwfree (env : Impl.Env) (hkw : Proofs.Cf.KwFree env) (s : Str) (c : List Spec.CSegment)
     (hj : Spec.judge (sigsOfEnv env) env.minIdx env.maxIdx s = (.valid, some c)) :
     Impl.compile env s = .ok (Spec.abstractSegs c) :=
